@@ -324,8 +324,9 @@ AckOnlyCovered ==
 
 \* a batch is given up only after Retry + 2 attempts that all failed, and only a failing batch is given up
 GiveUpOnlyAfterRetries ==
-  \A x \in DOMAIN hist : /\ hist[x].gaveup <=> (cs.fail[x] /\ HasIterable(cs.batches[x]))
-                          /\ hist[x].gaveup => Len(hist[x].reqs) = Retry + 2
+  \A x \in DOMAIN hist :
+     /\ hist[x].gaveup <=> (cs.fail[x] /\ HasIterable(cs.batches[x]))
+     /\ hist[x].gaveup => Len(hist[x].reqs) = Retry + 2
 
 \* the recursion sends a request only for a range that has not been accepted yet: no id is accepted twice
 NoDuplicateAccept ==
